@@ -3861,8 +3861,9 @@ pub fn run(out: &mut Out, seed: u64, thorough: bool, replay: Option<&str>) {
     //      address: the find_node requests it sends while joining again make the node list the new id too
     for mode in ["s"] {
         t0 += 10_000_000_000_000;
+        // (the first node of a network — no bootstrap list — adds every find_node requester to its table)
         let net = VNet::new(&mut rng, 4, true);
-        let boot = vec![net.peers[0].addr];
+        let boot: Vec<SocketAddrV4> = vec![];
         let mut d = Driver::new(out, rng.next(), net);
         d.begin(mode, &boot, None, rng.next() % 1_000_000 + 1, t0);
         d.run_for(2 * SEC, 10 * MS);
@@ -3882,6 +3883,7 @@ pub fn run(out: &mut Out, seed: u64, thorough: bool, replay: Option<&str>) {
         d.run_for(200 * MS, 10 * MS);
         d.run("snap".into());
         if let Some(sn) = d.s.last_snapshot.clone() {
+            d.out.count(if had_old { "z9-old-id-listed" } else { "z9-old-id-not-listed" });
             if had_old && !sn.routing_table.iter().any(|(i, a, _)| *i == id2 && *a == j) {
                 d.out.violation("C13", "rejoined-server-not-learned", format!("{} joined again under a new id ({}) 30 s after it had joined under {}: its find_node request did not make the node list the new id (a lookup of the new id cannot find it here)", addr_s(&j), hex(&id2.as_bytes()[..4]), hex(&id1.as_bytes()[..4])));
             }
@@ -3972,7 +3974,11 @@ pub fn run(out: &mut Out, seed: u64, thorough: bool, replay: Option<&str>) {
     //      serving its other callers
     for kind in 0..3 {
         t0 += 10_000_000_000_000;
-        let mut net = VNet::new(&mut rng, 45, true);
+        // (answers list 30 nodes picked at random, so the 20 closest known keep changing and the lookup asks
+        // several dozen nodes)
+        let mut net = VNet::new(&mut rng, 200, true);
+        net.list_k = 30;
+        net.list_random = true;
         let ih = Id::from_bytes(rng.id20()).expect("id");
         let item = MutableItem::new(&key_from_seed(9), b"m4", 4, None);
         let sa = SignedAnnounce::new(&key_from_seed(33), &ih);
